@@ -238,7 +238,9 @@ func (its *jsonPrimitive) getTargetByPaths(paths []string) (jsonType, errors.Ord
 func (its *jsonPrimitive) getTargetFromPatch(path string) (jsonType, string, errors.OrdaError) {
 	paths := strings.Split(path, "/")
 
-	if len(paths) < 1 {
+	// a pointer to a member or element is "/token.../token": at least two parts after the
+	// split; the empty pointer (the whole document) cannot be the target of a patch step.
+	if len(paths) < 2 {
 		return nil, "", errors.DatatypeInvalidPatch.New(its.common.L(), "incorrect path: %v", path)
 	}
 	// the reference tokens of a JSON pointer escape '~' as "~0" and '/' as "~1" (RFC 6901)
